@@ -12,6 +12,7 @@ THEOREMS = [
     "HgVerif.Reduce.reduce_history_free",
     "HgVerif.Reduce.shape_reachable",
     "HgVerif.Reduce.reachable_value",
+    "HgVerif.Reduce.reachable_history_free",
     "HgVerif.Reduce.combiner_count",
     "HgVerif.Reduce.reachable_combiner_count",
     "HgVerif.Reduce.rebuild_keeps_leaves",
@@ -90,13 +91,14 @@ class _Hist:
             w.append("z %d" % ztick)
         self.lines.append(" ".join(w))
 
-    def add_ops(self, k):
-        """k new elements, distinct from live ones and from each other"""
+    def add_ops(self, k, busy=()):
+        """k new elements, distinct from live ones, from each other and from the keys already touched in
+        this cycle (a key set AND removed in one delta has no defined meaning)"""
         ops, used = [], set()
         for _ in range(k):
             for _ in range(20):
                 key = self.fresh_key()
-                if key not in self.live and key not in used:
+                if key not in self.live and key not in used and key not in busy:
                     break
             else:
                 continue
@@ -183,7 +185,7 @@ def gen_tsd(rng, idx, comb, zero, tier):
                 ops = h.remove_ops(1, busy)
             else:
                 ops = h.remove_ops(1, busy)
-                more, _ = h.add_ops(1)     # remove one and add one in the same cycle: same size, new shape
+                more, _ = h.add_ops(1, busy)     # remove one and add one in the same cycle: same size, new shape
                 ops += more
             if rng.random() < 0.3:
                 ops += h.update_ops(1, busy)
@@ -208,7 +210,7 @@ def gen_tsd(rng, idx, comb, zero, tier):
                     nr = 0
                 ops += h.remove_ops(nr, busy)
                 ops += h.update_ops(nu, busy)
-                more, used = h.add_ops(min(na, max(room, 0)))
+                more, used = h.add_ops(min(na, max(room, 0)), busy)
                 ops += more
                 rng.shuffle(ops)
             h.cycle(ops, zt())
@@ -304,7 +306,7 @@ def exhaustive_small(tier):
 
 
 def streams(rng, tier, seed):
-    n = 400 if tier == "quick" else 8000
+    n = 1000 if tier == "quick" else 20000
     cases = [gen_case(rng, i, tier) for i in range(n)] + exhaustive_small(tier)
     cdir = os.path.join(os.path.dirname(BUILD), "corpus", "C11")
     corpus = []
@@ -368,6 +370,11 @@ def _spec(case, out):
         if w[0] == "c":
             i, nset, ndel, nupd = 1, 0, 0, 0
             before = len(live)
+            skeys = {w[x + 1] for x in range(1, len(w)) if w[x] == "set" and x + 2 < len(w)}
+            dkeys = {w[x + 1] for x in range(1, len(w)) if w[x] == "del" and x + 1 < len(w)}
+            if kind == "tsd" and skeys & dkeys:
+                feats.add("ambiguous-delta(not judged)")
+                break
             while i < len(w):
                 if w[i] == "set":
                     k, v = int(w[i + 1]), int(w[i + 2])
